@@ -5,7 +5,7 @@ import dsgcase
 ID = 'C14'
 CLAUSES = {'construction-fails-on-feasible-space', 'decode-raises-on-feasible-space', 'instance-not-final', 'instance-not-feasible',
            'decode-result-is-not-an-admissible-architecture', 'architectures-unreachable-by-any-vector', 'decode-not-idempotent',
-           'decodes-although-no-architecture-is-admissible'}
+           'decodes-although-no-architecture-is-admissible', 'fast-decode-differs-from-model'}
 RULE = ('G-sel graphs (incl. zero choices, forced choices, incompatibilities) x fast encoder x the whole declared space '
         '(<= 200 vectors, else samples): every decode is an admissible architecture of the model, decoding a corrected vector '
         'returns it unchanged, and when the whole space was decoded the set of instances equals the enum_adm of the model; '
